@@ -55,6 +55,11 @@ fn main() {
             let line = h.join().unwrap_or_else(|_| "PANIC".to_string());
             println!("{}", line);
         }
+        "c18procpair" => {
+            let a: Option<usize> = args.get(2).and_then(|x| x.parse().ok());
+            let b: usize = args.get(3).and_then(|x| x.parse().ok()).unwrap_or(0);
+            checks::c18::proc_pair_main(a, b);
+        }
         "c18pairsolo" => {
             let t: usize = args.get(2).and_then(|x| x.parse().ok()).unwrap_or(0);
             checks::c18::pair_solo_main(t);
